@@ -268,9 +268,12 @@ def obj_kind(o):
         return 'nrm'
     if isinstance(o, Laplacian):
         return 'lap'
-    a = getattr(o, 'A', None)
-    if type(o).__name__ == '_TransposedLinearOperator' and isinstance(a, Normalizer):
-        return 'nrmT'
+    # scipy wraps a Normalizer in _TransposedLinearOperator for every `.T`: the parity of the wrappers decides
+    depth, a = 0, o
+    while type(a).__name__ == '_TransposedLinearOperator':
+        depth, a = depth + 1, a.A
+    if depth and isinstance(a, Normalizer):
+        return 'nrmT' if depth % 2 else 'nrm'
     return 'gen'
 
 
@@ -524,6 +527,9 @@ def cases_for_expr(ctx, rng, e, full=True):
     r, c = o.shape
     out.append(Case(('shape', et), expr_sig(e, 'shape'), 'c15.shape ' + et, 'ok %d %d' % (r, c),
                     'c15.spec_shape %s %d %d' % (et, r, c), nontriv, dict(desc, query='shape')))
+    # class of the returned object and its shape against the static type of the expression (OpExpr.type?)
+    out.append(Case(('type', et), expr_sig(e, 'type'), None, 'ok %s %d %d' % (kind, r, c),
+                    'c15.spec_type %s %s %d %d' % (et, kind, r, c), nontriv, dict(desc, query='type')))
 
     def add_dot(expr, tag, x, wrong=False):
         ett = enc_expr(expr)
